@@ -1168,4 +1168,310 @@ theorem encRun_sim (p : Params) (hp : p.Valid) (pol : Policy) (tun : Tuning) (ca
   rw [encRun_eq, h1]
   simp only [k1, Option.map_some]
 
+/-! ### Target 1: the run as a list of operations of the C03/C04 vocabulary -/
+
+/-- What the codec, its caller and its consumer do to the world: the operations of C03/C04
+(`Woodpile.Iovec.Op`), with `Op.push b` split into its two halves — the caller making a buffer known
+to the world (`lend`; not an iovec call) and `OwningIovec::push` of a slice of an already known
+buffer (`pushAt`).  (`Op.push b` lends a fresh buffer for every push; the encoder pushes many
+sub-slices of ONE caller buffer.) -/
+inductive XOp where
+  | lend (buf : List UInt8)
+  | pushAt (s : Slice)
+  | op (o : Woodpile.Iovec.Op)
+  deriving Repr, DecidableEq
+
+def xstep (i : Nat) (s : State) : XOp → Option (State × Ret)
+  | .lend buf => some ({ s with w := (s.w.addExt buf).1 }, .unit)
+  | .pushAt sl => (s.w.push i sl).map fun w' => ({ s with w := w' }, .unit)
+  | .op o => step i s o
+
+def xrun (i : Nat) : State → List XOp → Option (State × List Ret)
+  | s, [] => some (s, [])
+  | s, o :: ops =>
+    match xstep i s o with
+    | none => none
+    | some (s', r) =>
+      match xrun i s' ops with
+      | none => none
+      | some (s'', rs) => some (s'', r :: rs)
+
+/-- `Op.push b` is `lend` of `b`'s buffer followed by `pushAt` of the lent slice. -/
+theorem push_is_lend_pushAt (i : Nat) (s : State) (b : Borrow) :
+    (xrun i s [.op (.push b)]).map (·.1) =
+      (xrun i s [.lend (b.pre ++ b.bs ++ b.post), .pushAt (s.w.lend b).2]).map (·.1) := by
+  have e : (s.w.addExt (b.pre ++ b.bs ++ b.post)).1 = (s.w.lend b).1 := rfl
+  simp only [xrun, xstep, step, e]
+  cases h : (s.w.lend b).1.push i (s.w.lend b).2 <;> rfl
+
+/-- `ops` runs from `s` to `s'` without panicking. -/
+def XR (i : Nat) (s : State) (ops : List XOp) (s' : State) : Prop := ∃ rs, xrun i s ops = some (s', rs)
+
+theorem XR.nil (i : Nat) (s : State) : XR i s [] s := ⟨[], rfl⟩
+
+theorem XR.cons {i : Nat} {s s1 s2 : State} {o : XOp} {ops : List XOp} {r : Ret}
+    (h1 : xstep i s o = some (s1, r)) (h2 : XR i s1 ops s2) : XR i s (o :: ops) s2 := by
+  obtain ⟨rs, h2⟩ := h2
+  exact ⟨r :: rs, by simp [xrun, h1, h2]⟩
+
+theorem XR.append {i : Nat} {s s1 s2 : State} {a b : List XOp} (h1 : XR i s a s1) (h2 : XR i s1 b s2) :
+    XR i s (a ++ b) s2 := by
+  induction a generalizing s with
+  | nil =>
+    obtain ⟨rs, h1⟩ := h1
+    simp only [xrun, Option.some.injEq, Prod.mk.injEq] at h1
+    obtain ⟨rfl, _⟩ := h1
+    exact h2
+  | cons o t ih =>
+    obtain ⟨rs, h1⟩ := h1
+    simp only [xrun] at h1
+    cases hs : xstep i s o with
+    | none => rw [hs] at h1; cases h1
+    | some sr =>
+      obtain ⟨s', r⟩ := sr
+      rw [hs] at h1
+      simp only at h1
+      cases hr : xrun i s' t with
+      | none => rw [hr] at h1; cases h1
+      | some srs =>
+        obtain ⟨s'', rs'⟩ := srs
+        rw [hr] at h1
+        simp only [Option.some.injEq, Prod.mk.injEq] at h1
+        obtain ⟨rfl, _⟩ := h1
+        exact XR.cons hs (ih ⟨rs', hr⟩)
+
+/-- The operation an emit becomes (`toks` = the tokens returned by the registrations so far). -/
+def emitOp (toks : List Backref) (e : Emit) (src : Slice) : XOp :=
+  match e.op with
+  | .append bs =>
+    match e.method with
+    | .copy => .op (.pushCopy bs)
+    | .borrow => .pushAt { src with len := bs.length }
+  | .register n => .op (.registerPatch (List.replicate n 0))
+  | .fill id bs => .op (.backfill (toks.getD id none) bs)
+
+theorem applyEmit_xstep {w w' : World} {i : Nat} {toks toks' : List Backref} {e : Emit} {src : Slice}
+    (g : List UInt8) (n : Nat) (h : applyEmit w i toks e src = some (w', toks')) :
+    ∃ r n', xstep i ⟨w, g, n⟩ (emitOp toks e src) = some (⟨w', g, n'⟩, r) := by
+  obtain ⟨op, m⟩ := e
+  cases op with
+  | append bs =>
+    cases m with
+    | copy =>
+      simp only [applyEmit, Option.map_eq_some_iff, Prod.mk.injEq] at h
+      obtain ⟨w1, h1, rfl, _⟩ := h
+      exact ⟨.unit, n, by simp [emitOp, xstep, step, h1]⟩
+    | borrow =>
+      simp only [applyEmit, Option.map_eq_some_iff, Prod.mk.injEq] at h
+      obtain ⟨w1, h1, rfl, _⟩ := h
+      exact ⟨.unit, n, by simp [emitOp, xstep, h1]⟩
+  | register k =>
+    simp only [applyEmit] at h
+    cases h1 : w.registerPatch i (List.replicate k 0) with
+    | none => rw [h1] at h; cases h
+    | some x =>
+      obtain ⟨w1, b⟩ := x
+      rw [h1] at h
+      simp only [Option.some.injEq, Prod.mk.injEq] at h
+      obtain ⟨rfl, _⟩ := h
+      exact ⟨.token b, n + 1, by simp [emitOp, xstep, step, h1]⟩
+  | fill id bs =>
+    simp only [applyEmit] at h
+    cases h0 : toks[id]? with
+    | none => rw [h0] at h; cases h
+    | some b =>
+      rw [h0] at h
+      simp only [Option.map_eq_some_iff, Prod.mk.injEq] at h
+      obtain ⟨w1, h1, rfl, _⟩ := h
+      exact ⟨.unit, n, by simp [emitOp, xstep, step, h0, h1]⟩
+
+/-- The operations of one state-machine step. -/
+def stepOps (w : World) (i : Nat) (toks : List Backref) : List Emit → Slice → List XOp
+  | [], _ => []
+  | e :: rest, src =>
+    emitOp toks e src ::
+      match applyEmit w i toks e src with
+      | some (w', toks') => stepOps w' i toks' rest src
+      | none => []
+
+theorem applyStep_xrun {i : Nat} {src : Slice} (g : List UInt8) (es : List Emit) :
+    ∀ {w w' : World} {toks toks' : List Backref} (n : Nat), applyStep w i toks es src = some (w', toks') →
+      ∃ n', XR i ⟨w, g, n⟩ (stepOps w i toks es src) ⟨w', g, n'⟩ := by
+  induction es with
+  | nil =>
+    intro w w' toks toks' n h
+    simp only [applyStep, Option.some.injEq, Prod.mk.injEq] at h
+    obtain ⟨rfl, _⟩ := h
+    exact ⟨n, XR.nil _ _⟩
+  | cons e t ih =>
+    intro w w' toks toks' n h
+    simp only [applyStep] at h
+    cases h1 : applyEmit w i toks e src with
+    | none => rw [h1] at h; cases h
+    | some x =>
+      obtain ⟨w1, toks1⟩ := x
+      rw [h1] at h
+      obtain ⟨r, n1, hx⟩ := applyEmit_xstep g n h1
+      obtain ⟨n2, h2⟩ := ih n1 h
+      refine ⟨n2, ?_⟩
+      simp only [stepOps, h1]
+      exact XR.cons hx h2
+
+/-- The operations of one `encode` / `encode_copy` call. -/
+def feedOps (p : Params) : Nat → World → Nat → EncW → Method → Slice → List UInt8 → Nat → List XOp
+  | 0, _, _, _, _, _, _, _ => []
+  | fuel + 1, w, i, e, m, base, input, pos =>
+    if input.isEmpty then []
+    else
+      stepOps w i e.toks (Enc.consumeOnce p e.st e.nid m input).emits
+          { base with off := base.off + pos, len := base.len - pos } ++
+        match applyStep w i e.toks (Enc.consumeOnce p e.st e.nid m input).emits
+            { base with off := base.off + pos, len := base.len - pos } with
+        | none => []
+        | some (w', toks') =>
+          feedOps p fuel w' i ⟨(Enc.consumeOnce p e.st e.nid m input).st,
+            (Enc.consumeOnce p e.st e.nid m input).nextId, toks'⟩ m base
+            (input.drop (Enc.consumeOnce p e.st e.nid m input).consumed)
+            (pos + (Enc.consumeOnce p e.st e.nid m input).consumed)
+
+theorem encFeed_xrun (p : Params) (i : Nat) (m : Method) (base : Slice) (g : List UInt8) (fuel : Nat) :
+    ∀ (w w' : World) (e e' : EncW) (input : List UInt8) (pos n : Nat),
+      encFeed p fuel w i e m base input pos = some (w', e') →
+      ∃ n', XR i ⟨w, g, n⟩ (feedOps p fuel w i e m base input pos) ⟨w', g, n'⟩ := by
+  induction fuel with
+  | zero =>
+    intro w w' e e' input pos n h
+    simp only [encFeed_zero, Option.some.injEq, Prod.mk.injEq] at h
+    obtain ⟨rfl, _⟩ := h
+    exact ⟨n, XR.nil _ _⟩
+  | succ fuel ih =>
+    intro w w' e e' input pos n h
+    by_cases hne : input = []
+    · subst hne
+      simp only [encFeed_nil, Option.some.injEq, Prod.mk.injEq] at h
+      obtain ⟨rfl, _⟩ := h
+      exact ⟨n, by simp only [feedOps, List.isEmpty_nil, if_true]; exact XR.nil _ _⟩
+    · rw [encFeed_succ p fuel w i e m base input pos hne] at h
+      have hie : input.isEmpty = false := by cases input with | nil => exact absurd rfl hne | cons _ _ => rfl
+      cases h1 : applyStep w i e.toks (Enc.consumeOnce p e.st e.nid m input).emits
+          { base with off := base.off + pos, len := base.len - pos } with
+      | none => rw [h1] at h; cases h
+      | some x =>
+        obtain ⟨w1, toks1⟩ := x
+        rw [h1] at h
+        obtain ⟨n1, hx⟩ := applyStep_xrun g _ n h1
+        obtain ⟨n2, h2⟩ := ih w1 w' _ e' _ _ n1 h
+        refine ⟨n2, ?_⟩
+        simp only [feedOps, hie, Bool.false_eq_true, if_false, h1]
+        exact XR.append hx h2
+
+/-- The operations of one call. -/
+def callOps (p : Params) (i : Nat) (r : Run) : Call → List XOp
+  | .feed .borrow d =>
+    .lend d :: feedOps p (2 * d.length + 2) (r.w.addExt d).1 i r.e .borrow ⟨.ext r.w.exts.length, 0, d.length⟩ d 0
+  | .feed .copy d => feedOps p (2 * d.length + 2) r.w i r.e .copy ⟨.ext 0, 0, 0⟩ d 0
+  | .consume k => [.op (.consume k)]
+  | .advance k => [.op (.advance k)]
+
+def callsOps (p : Params) (i : Nat) : Run → List Call → List XOp
+  | _, [] => []
+  | r, c :: t =>
+    callOps p i r c ++
+      match encCall p i r c with
+      | some r' => callsOps p i r' t
+      | none => []
+
+theorem encCall_xrun (p : Params) (i : Nat) (r r' : Run) (c : Call) (n : Nat) (h : encCall p i r c = some r') :
+    ∃ n', XR i ⟨r.w, r.drained, n⟩ (callOps p i r c) ⟨r'.w, r'.drained, n'⟩ := by
+  cases c with
+  | feed m d =>
+    cases m with
+    | copy =>
+      simp only [encCall, Option.map_eq_some_iff] at h
+      obtain ⟨x, h1, rfl⟩ := h
+      exact encFeed_xrun p i .copy _ r.drained _ r.w x.1 r.e x.2 d 0 n h1
+    | borrow =>
+      simp only [encCall, Option.map_eq_some_iff] at h
+      obtain ⟨x, h1, rfl⟩ := h
+      obtain ⟨n', h2⟩ := encFeed_xrun p i .borrow _ r.drained _ (r.w.addExt d).1 x.1 r.e x.2 d 0 n h1
+      exact ⟨n', XR.cons (r := .unit) rfl h2⟩
+  | consume k =>
+    simp only [encCall] at h
+    cases hv : r.w.iov i with
+    | none => rw [hv] at h; cases h
+    | some v =>
+      rw [hv] at h
+      simp only [Option.map_eq_some_iff] at h
+      obtain ⟨x, h1, rfl⟩ := h
+      refine ⟨n, XR.cons (r := .took x.2 (r.w.flat (v.slices.take x.2))) ?_ (XR.nil _ _)⟩
+      simp [xstep, step, hv, h1]
+  | advance k =>
+    simp only [encCall] at h
+    cases hv : r.w.iov i with
+    | none => rw [hv] at h; cases h
+    | some v =>
+      rw [hv] at h
+      simp only [Option.map_eq_some_iff] at h
+      obtain ⟨x, h1, rfl⟩ := h
+      refine ⟨n, XR.cons (r := .took x.2 ((r.w.flat v.slices).take x.2)) ?_ (XR.nil _ _)⟩
+      simp [xstep, step, hv, h1]
+
+theorem encCalls_xrun (p : Params) (i : Nat) (calls : List Call) :
+    ∀ (r r' : Run) (n : Nat), encCalls p i r calls = some r' →
+      ∃ n', XR i ⟨r.w, r.drained, n⟩ (callsOps p i r calls) ⟨r'.w, r'.drained, n'⟩ := by
+  induction calls with
+  | nil =>
+    intro r r' n h
+    simp only [encCalls, Option.some.injEq] at h
+    subst h
+    exact ⟨n, XR.nil _ _⟩
+  | cons c t ih =>
+    intro r r' n h
+    simp only [encCalls] at h
+    cases h1 : encCall p i r c with
+    | none => rw [h1] at h; cases h
+    | some r1 =>
+      rw [h1] at h
+      obtain ⟨n1, hx⟩ := encCall_xrun p i r r1 c n h1
+      obtain ⟨n2, h2⟩ := ih r1 r' n1 h
+      exact ⟨n2, by simp only [callsOps, h1]; exact XR.append hx h2⟩
+
+/-- The operation list of a whole run: `Encoder::new`'s, each call's, `finish`'s. -/
+def encRunOps (p : Params) (pol : Policy) (tun : Tuning) (calls : List Call) : List XOp :=
+  stepOps (World.fresh pol tun) 0 [] (Enc.init p 0).2 ⟨.ext 0, 0, 0⟩ ++
+    match encInit p (World.fresh pol tun) 0 with
+    | none => []
+    | some (w1, e1) =>
+      callsOps p 0 ⟨w1, e1, []⟩ calls ++
+        match encCalls p 0 ⟨w1, e1, []⟩ calls with
+        | none => []
+        | some r => stepOps r.w 0 r.e.toks (Enc.finish p r.e.st) ⟨.ext 0, 0, 0⟩
+
+theorem encRun_xrun (p : Params) (pol : Policy) (tun : Tuning) (calls : List Call) (w' : World) (dr : List UInt8)
+    (h : encRun p pol tun calls = some (w', dr)) :
+    ∃ n, XR 0 (State.init pol tun) (encRunOps p pol tun calls) ⟨w', dr, n⟩ := by
+  unfold encRun at h
+  cases h0 : applyStep (World.fresh pol tun) 0 [] (Enc.init p 0).2 ⟨.ext 0, 0, 0⟩ with
+  | none => simp [encInit, h0] at h
+  | some x =>
+    obtain ⟨w1, toks1⟩ := x
+    have hi : encInit p (World.fresh pol tun) 0 = some (w1, ⟨(Enc.init p 0).1, 1, toks1⟩) := by
+      simp only [encInit, h0]
+    rw [hi] at h
+    simp only at h
+    obtain ⟨n1, hx1⟩ := applyStep_xrun (i := 0) [] _ 0 h0
+    cases h1 : encCalls p 0 ⟨w1, ⟨(Enc.init p 0).1, 1, toks1⟩, []⟩ calls with
+    | none => rw [h1] at h; cases h
+    | some r =>
+      rw [h1] at h
+      simp only [encFinish, Option.map_eq_some_iff, Prod.mk.injEq] at h
+      obtain ⟨wf, ⟨x, h2, rfl⟩, rfl, rfl⟩ := h
+      obtain ⟨n2, hx2⟩ := encCalls_xrun p 0 calls _ r n1 h1
+      obtain ⟨n3, hx3⟩ := applyStep_xrun (i := 0) r.drained _ n2 (toks' := x.2) (w' := x.1) h2
+      refine ⟨n3, ?_⟩
+      unfold encRunOps
+      rw [hi]
+      simp only [h1]
+      exact XR.append hx1 (XR.append hx2 hx3)
+
 end Woodpile.EncWorld
